@@ -310,9 +310,10 @@ CLAIMED['C18'] = dict(
          "counter decrement and the then-chain follow the publication; run returns true iff this call ran the functor, and false only if somebody else runs or ran it; wait returns only with "
          "the status kReady; timed waits report ready only if kReady was observed and run the functor themselves only if inline execution is allowed. Shared-state lifetime (every copy's get() sees the same live result): "
          "incRefCount / decRefCountMaybeDestroy keep the counter equal to the number of owners as unbounded integers for fewer than 2^31 simultaneous owners (the counter's declared type is "
-         "read from the source), and dealloc() runs exactly when the last owner lets go.",
+         "read from the source), and dealloc() runs exactly when the last owner lets go; FutureBase copy / move / destructor (the Future handle) are proved over an ownership ledger: the old state loses exactly "
+         "this owner, the new one gains exactly one, a state with an owner is never destroyed (self-assignment and assignment between handles of one state included).",
     note="A-SC; the rely (specs/c18_future.c others_act: the word only moves forward, only the claimant completes) and the R/G meta-theorem are trusted; 'exactly once over all threads' is the atomic "
-         "RMW axiom (one CAS winner) + 'never back to kNotStarted' proved here. CompletionEventImpl::notify/wait are used through their C21 contracts. Which call sites own a reference, and termination "
+         "RMW axiom (one CAS winner) + 'never back to kNotStarted' proved here. CompletionEventImpl::notify/wait are used through their C21 contracts. Which other call sites (scheduling, then-continuations) own a reference, and termination "
          "of the weak-CAS retry loop, are NOT decided.",
     technique="CBMC DFCC function + loop contracts, rely/guarantee via interference before each atomic macro, ownership ghost for the claimant")
 
